@@ -17,7 +17,9 @@ func init() {
 			"(every-change-accounted) in the methods of renameDetector, every loop that redistributes changes (ranges over a []*Change and appends its element somewhere) either consumes the element — an append that mentions it, " +
 			"or a &Change{…} built from it — on every path through the body, or passes it over on an edge whose condition is purely about the element's identity (nil test, comparison with another change, membership in a set keyed by it). " +
 			"A branch that pairs the element only if a further condition holds and has no else (found and fixed: an addition that matched several deletions of another mode vanished) is a path without consumption. " +
-			"(result-is-union) detect returns a list built from all three of added, deleted and modified. Not decided: merkletrie.DiffTree, similarity scores, which pairs are chosen.",
+			"(used-mark-implies-pairing) once a change is entered into a used-set (which makes the leftover loops skip it) it is paired or appended on every path to the end of the iteration; " +
+			"(result-is-union) detect returns a list built from all three of added, deleted and modified; (both-advance-only-on-equal-paths) merkletrie.DiffTreeContext advances both of its iterators together only across the fact from.Compare(to) == 0 " +
+			"and enters the same-name handler from the equal clause of that comparison only (found and fixed: a skip-worktree entry was matched by base name and swallowed an unrelated node). Not decided: the rest of merkletrie.DiffTree, similarity scores, which pairs are chosen.",
 		Assumptions: []string{},
 		Run:         runC44,
 	})
